@@ -66,7 +66,14 @@ def _env():
 def run_step(hdir_root, step_job, step_index, timeout=None):
     """Execute one step of a history. Returns the report dict."""
     job = dict(step_job)
-    job["output"] = os.path.join(hdir_root, "out")
+    job["output"] = os.path.join(hdir_root, job.pop("output_subdir", "out"))
+    if job.get("copy_output_from"):
+        # the run directory was moved / copied between two processes (e.g.
+        # from scratch space to permanent storage) and is resumed in its new
+        # place
+        src = os.path.join(hdir_root, job.pop("copy_output_from"))
+        if os.path.isdir(src) and not os.path.exists(job["output"]):
+            shutil.copytree(src, job["output"])
     job["hdir"] = os.path.join(hdir_root, "h")
     job["step"] = step_index
     job["report"] = os.path.join(job["hdir"], f"report_{step_index}.json")
